@@ -227,6 +227,16 @@ def run_check(P, tier, seed, a):
         hdr = f'property: {pid}\nentry: {job["entry"]}\nargs: {json.dumps(job.get("args", []))}\nobligation: {rec["tag"]}[{rec["k"]}] kind={rec["kind"]}\nlabel: {job.get("label")}'
         driver.write_vals(fn, env, hdr)
         confirmed = confirm(exe, job, rec, env, fn)
+        if confirmed is None and rec['answer'] == 'sat' and not b.get('hint_env') and (b['goals'][rec['gi']].get('sides')):
+            # the model violates the obligation in exact arithmetic by less than a floating-point run can show: ask for a
+            # model that violates it by a margin above the replay tolerance and replay that one
+            mg = driver.margin_assert(rec['kind'], b['goals'][rec['gi']]['sides'], open(b['file']).read())
+            if mg:
+                env2, raw2 = driver.get_model(b, rec['gi'], extra_asserts=[mg], cap=(b.get('cap') or 60) if quick else 300)
+                if env2:
+                    env2.update(summaries[rec['job']]['paths'][rec['path']].get('choices', {}))
+                    driver.write_vals(fn, env2, hdr + '\nmodel: violation by a margin above the replay tolerance')
+                    confirmed = confirm(exe, job, rec, env2, fn)
         if confirmed is None:
             if rec['answer'] == 'sat':
                 inconclusive.append(f'{key}[{rec["k"]}]: model does not reproduce natively (replay {fn})')
